@@ -27,11 +27,12 @@ mod wire;
 
 use runner::CaseFn;
 
-fn lookup(property: &str, check: &str) -> Option<Box<CaseFn>> {
+fn lookup(property: &str, check: &str, thorough: bool) -> Option<Box<CaseFn>> {
     match (property, check) {
-        ("C01" | "C02" | "C03" | "C06", "pdu-scenario") => {
+        ("C01" | "C02" | "C03" | "C06", "pdu-scenario") | ("C20", "concurrent-tasks-subpoll") => {
             let prop = c_pdu::prop_of(property)?;
-            Some(Box::new(move |rs, nonce, replay| c_pdu::case(prop, false, rs, nonce, replay)))
+            // The scenario generator's bounds depend on the tier the file was recorded in.
+            Some(Box::new(move |rs, nonce, replay| c_pdu::case(prop, thorough, rs, nonce, replay)))
         }
         ("C12", "eeprom-reads") => Some(Box::new(c_eeprom::c12_case)),
         ("C13", "hostile-eeprom") => Some(Box::new(c_eeprom::c13_case)),
